@@ -1,7 +1,7 @@
 # Per-property check configuration for the driver.
 
-def sim(quick, thorough, qshards=12, tshards=14, **kw):
-    d = {"engine": "sim", "quick": {"cases": quick, "shards": qshards}, "thorough": {"cases": thorough, "shards": tshards, "timeout": 1500}}
+def sim(quick, thorough, qshards=12, tshards=14, qtimeout=200, **kw):
+    d = {"engine": "sim", "quick": {"cases": quick, "shards": qshards, "timeout": qtimeout}, "thorough": {"cases": thorough, "shards": tshards, "timeout": 1500}}
     d.update(kw)
     return d
 
@@ -114,7 +114,7 @@ CHECKS = {
         "level": "fault_enumeration",
         "rule": "rapid generates base histories (4-16 ops after an optional prologue of established subscriptions; C01 generator incl. calls, token resets, resets with access patterns; a third with resetThrottle/referenceThrottle 1-2 so that work can be waiting inside a throttle); for each base of n ops and each of its (up to 3) connections, n+1 variants close that connection before op k, each run in a fresh gateway (evaluations = base + variant runs); oracle: the connection-event subscription is released in the step of the close, no access/call/auth request carrying that connection id is issued in any later step (incl. after token resets and throttle hand-offs), the other connections still get every response (C07 oracle) and converge (C01 oracle), and after closing everything the cache is empty (C09 end state and use-count invariant). Non-trivial = the connection had an unanswered service request or client request when it was closed; distinct by variant script hash",
         "assumptions": A_SIM + ["gets are anonymous at the messaging boundary: for them only the cache clean-up is asserted", "aborting an HTTP request mid-flight is not modelled"],
-        "parts": [sim(20, 300)],
+        "parts": [sim(14, 220, qtimeout=300)],
     },
     "C20": {
         "level": "fault_enumeration",
